@@ -152,3 +152,20 @@ Theorem gen_ub_env_is_the_model :
   forall var value sts c, gen_ub_env var value sts c = ub_env var value sts c.
 Proof. intros var value sts c. reflexivity. Qed.
 Print Assumptions gen_ub_env_is_the_model.
+
+(* ---- exec0() raises iff the status differs from 0, test() is (status == 0): Bash, Ash, UBootShell ---- *)
+Theorem gen_exec0_and_test_are_the_model :
+  (forall args sts c, gen_bash_exec0 args sts c = lx_exec0 args sts c) /\
+  (forall args sts c, gen_ash_exec0 args sts c = lx_exec0 args sts c) /\
+  (forall args sts c, gen_ub_exec0 args sts c = ub_exec0 args sts c) /\
+  (forall args sts c, gen_bash_test args sts c = lx_test args sts c) /\
+  (forall args sts c, gen_ash_test args sts c = lx_test args sts c).
+Proof.
+  split; [|split; [|split; [|split]]]; intros args sts c.
+  - unfold gen_bash_exec0, lx_exec0. destruct (lx_exec args sts c) as [[[st out| |] c'] sts']; try reflexivity. destruct (st =? 0)%Z; reflexivity.
+  - unfold gen_ash_exec0, lx_exec0. destruct (lx_exec args sts c) as [[[st out| |] c'] sts']; try reflexivity. destruct (st =? 0)%Z; reflexivity.
+  - unfold gen_ub_exec0, ub_exec0. destruct (ub_exec args sts c) as [[[st out| |] c'] sts']; try reflexivity. destruct (st =? 0)%Z; reflexivity.
+  - reflexivity.
+  - reflexivity.
+Qed.
+Print Assumptions gen_exec0_and_test_are_the_model.
